@@ -52,6 +52,19 @@ def to_df(frame):
     for i, (label, dt, vals) in enumerate(frame):
         if dt == "object":
             cols[i] = pd.Series(list(vals), dtype=object)
+        elif dt == "period":
+            cols[i] = pd.Series(pd.period_range("2020-01", periods=len(vals), freq="M"))
+        elif dt == "interval":
+            cols[i] = pd.Series(pd.interval_range(0, len(vals)))
+        elif dt == "cat_period":
+            cols[i] = pd.Series(pd.period_range("2020-01", periods=len(vals), freq="M")).astype("category")
+        elif dt == "cat_interval":
+            cols[i] = pd.Series(pd.interval_range(0, len(vals))).astype("category")
+        elif dt == "cat_complex":
+            cols[i] = pd.Series(np.array([complex(0, v) for v in vals], dtype="complex128")).astype("category")
+        elif dt == "mixed":
+            pool = [1, "a", 2.5, (1, 2), b"x"]
+            cols[i] = pd.Series([pool[j % len(pool)] for j in range(len(vals))], dtype=object)
         elif dt == "complex128":
             cols[i] = pd.Series(np.array([complex(0, v) for v in vals], dtype="complex128"))
         elif dt == "float64":
